@@ -417,6 +417,15 @@ def run(rep, tier):
     hs = run_conversions(rep, tier)
     run_stacks(rep, tier)
     run_rvalue(rep, tier)
+    # a converted stack answers lookups as a directly constructed one does: the affine layer's lookup contract along the converting
+    # route (the only stateful wrapper with a converting constructor; clamp/backup stacks do not convert)
+    from . import c09, c14
+    c09.declare(rep)
+    for r in [r for r in rep.rules if r.startswith("C09.") and r not in ("C09.layer", "C09.compile", "C09.precision")]:
+        rep.rules.pop(r, None)
+    for r in ("C09.layer", "C09.compile", "C09.precision"):
+        rep.rules[r]["floor"] = 3
+    c09.run(c14.only(rep), tier, hs=[c09.h_layer(N, T, (N % 4) + 1, "conv") for N in ((1, 2, 3) if tier == "quick" else (1, 2, 3, 4)) for T in (("float",) if N % 2 else ("double",))])
     # C05.d hands coverage of the box to nd_map: its rules (C19) are evaluated here as well
     from . import c19
     c19.declare(rep)
@@ -430,7 +439,7 @@ def check(tier):
     declare(rep)
     hs = run(rep, tier)
     rep.assumptions = ["value equality at every coordinate is not executed; it follows from writer==reader index maps (C05.b), injectivity of those maps (C01/C14), full-box iteration (C05.d + C19) and component-wise copy",
-                       "Hilbert's index map is a data-dependent loop: for conversions into/out of Hilbert only allocation, extents, side length and the copy's component structure are decided",
+                       "Hilbert's index map is decided by C14.d-curve; here, for conversions into/out of Hilbert, allocation, extents, side length and the copy's component structure",
                        "wrapper layers' pass-through converting constructors are covered by the compile witnesses and C17's routing rules"]
     rep.extra["conversions"] = [h.name for h in hs]
     return rep.finish(
